@@ -95,7 +95,7 @@ def PlanSpec.toPlan (p : PlanSpec) : Plan :=
 def DState.params (d : DState) : SParams where
   codec := mkCodec d.ctab
   dzRead := idealDz d.ztab
-  dzFuel := 1000000
+  dzFuel := fun _ => 1000000
   md5 := Md5.md5b64
   planOf toi k :=
     match d.plans.find? (·.1 == (toi, k)) with
